@@ -487,6 +487,10 @@ func exec(line string) zv.Out {
 		return execCRL(f)
 	case "num":
 		return execNum(f)
+	case "rlist":
+		return execRList(f)
+	case "rlp":
+		return execRLP(f)
 	}
 	return zv.Out{Viol: "bad line"}
 }
@@ -560,6 +564,7 @@ func gen(g *zv.Gen) {
 		v := new(big.Int).SetBytes(r.Bytes(1 + r.Intn(24)))
 		g.Emitf("c05 num %s", v)
 	}
+	genRList(g)
 }
 
 var _ = hex.EncodeToString
